@@ -373,7 +373,9 @@ def lstrip_namespace(s, namespaces):
     :rtype: ```AnyStr```
     """
     for namespace in namespaces:
-        s = s.lstrip(namespace)
+        # the whole prefix, not `str.lstrip` (which strips any of its characters: "str" -> "r", "int" -> "")
+        while namespace and s.startswith(namespace):
+            s = s[len(namespace) :]
     return s
 
 
